@@ -390,3 +390,53 @@ Definition keywords_match_model (tbl : list (N * bytes * N * N)) : bool := foral
 Definition all_bytes : list N := map N.of_nat (seq 0%nat 256%nat).
 Definition charclass_matches (f : byte -> bool) (probed : list N) : bool :=
   forallb (fun b => Bool.eqb (f b) (mem_N b probed)) all_bytes && forallb (fun b => b <? 256) probed.
+
+(* ---- compressed form of the probe table ----
+   The check probes 24042 inputs; written out entry by entry the table takes Coq half a minute to read, so
+   coq/gen/Gen_NinjaKeywords.v stores it as
+   - singles: plain entries (the keywords themselves in the four modes, their two truncations);
+   - families: (mode, keyword w, family f, runs): the 256 inputs obtained from w by putting every byte value v
+     at position f (f < length w; v = w[f] gives w itself), by appending v (f = 100) or by prepending v (f = 101);
+     the 256 answers (kind, length), in the order v = 0..255, are run-length encoded as (count, kind, length). *)
+Fixpoint set_nth (i : nat) (v : byte) (w : bytes) : bytes :=
+  match w with
+  | [] => []
+  | b :: r => match i with O => v :: r | S j => b :: set_nth j v r end
+  end.
+
+Definition family_input (w : bytes) (f v : N) : bytes :=
+  if f =? 100 then w ++ [v] else if f =? 101 then v :: w else set_nth (N.to_nat f) v w.
+
+Fixpoint expand_runs (runs : list (N * N * N)) : list (N * N) :=
+  match runs with
+  | [] => []
+  | (c, k, n) :: r => repeat (k, n) (N.to_nat c) ++ expand_runs r
+  end.
+
+Definition expand_family (e : N * bytes * N * list (N * N * N)) : list (N * bytes * N * N) :=
+  let '(m, w, f, runs) := e in
+  map (fun va => (m, family_input w f (fst va), fst (snd va), snd (snd va))) (combine all_bytes (expand_runs runs)).
+
+Definition expand_keyword_table (singles : list (N * bytes * N * N))
+           (fams : list (N * bytes * N * list (N * N * N))) : list (N * bytes * N * N) :=
+  singles ++ flat_map expand_family fams.
+
+(* every family answers all 256 byte values *)
+Definition families_complete (fams : list (N * bytes * N * list (N * N * N))) : bool :=
+  forallb (fun e => length (expand_runs (snd e)) =? 256)%nat fams.
+
+(* the families cover, in the modes None and IdentifierSpecific, every position of every keyword of the table, the
+   one-byte extensions at either end; the singles contain every keyword in all four modes and both truncations
+   in the two modes *)
+Definition has_family (fams : list (N * bytes * N * list (N * N * N))) (m : N) (w : bytes) (f : N) : bool :=
+  existsb (fun e => let '(m', w', f', _) := e in (m' =? m) && bytes_eqb w' w && (f' =? f)) fams.
+Definition has_single (singles : list (N * bytes * N * N)) (m : N) (w : bytes) : bool :=
+  existsb (fun e => let '(m', w', _, _) := e in (m' =? m) && bytes_eqb w' w) singles.
+Definition probes_cover (singles : list (N * bytes * N * N)) (fams : list (N * bytes * N * list (N * N * N))) : bool :=
+  forallb (fun kw =>
+    let w := fst kw in
+    forallb (fun m => has_single singles m w) [0; 1; 2; 3] &&
+    forallb (fun m =>
+      has_single singles m (removelast w) && has_single singles m (tl w) &&
+      forallb (fun f => has_family fams m w f) (map N.of_nat (seq 0%nat (length w)) ++ [100; 101])) [0; 3])
+    keyword_table.
